@@ -47,7 +47,7 @@ PROPS = {
     },
     "C07": {
         "suites": ["mtu", "pair"],
-        "level_text": "Theorems on the byte budget for every sound compressor (see Props/C07.lean) and on delta content; model tied to compute_partial_delta_respecting_mtu / DeltaSerializer / CompressedStreamWriter / process_message by byte-exact differential runs (admitted ops, recorded length, final reply size on the wire) with budgets swept around every block, size and op boundary and boundary-directed reply-size cases.",
+        "level_text": "Theorems on the byte budget for every sound compressor (C07_writer_bound, C07_delta_fits_partial, C07_synack_fits_partial) and on delta content (C07_content: every node delta computeDelta emits, for any budget / compressor / shuffle, is senderNodeDelta of a non-quarantined member strictly ahead of the digest, i.e. the first n stale key-values in version order, max version only when nothing was to be sent); model tied to compute_partial_delta_respecting_mtu / DeltaSerializer / CompressedStreamWriter / process_message by byte-exact differential runs (admitted ops, recorded length, final reply size on the wire) with budgets swept around every block, size and op boundary and boundary-directed reply-size cases.",
         "level_note": _COMMON_NOTE + "PARTIAL: the size bound is proved for admitted ops of at most one block (16 KiB); for larger items the upper bound of the code counts two blocks and relies on zstd gain (assumption FullBlockGain, exercised by the mtu suite with near-incompressible 16-65 KB values, not proved).",
         "assumptions": ["zstd is an abstract sound compressor (never expands a block it reports as compressed; decompresses what it compressed)", "items larger than one block: FullBlockGain assumption, tested not proved"],
         "partial": "size bound proved for ops <= block threshold; larger items rely on zstd gain (tested)",
@@ -59,11 +59,10 @@ PROPS = {
         "assumptions": ["zstd is an abstract sound compressor"],
     },
     "C09": {
-        "suites": ["wire", "apply"],
-        "level_text": "C09_decoded_delta_wf / C09_decoded_msg_wf (every decodable delta is well formed: distinct members, strictly increasing versions, nothing above the announced max), C09_apply_decoded_never_panics, C09_decoded_frontier_monotone, for all byte strings and compressor behaviours; decoder model written with checked accesses only; tied to the real decoder and process_message by random / bit-flipped / truncated / structure-aware datagrams (decode result, error vs value, panics).",
-        "level_note": _COMMON_NOTE + "PARTIAL: absence of panics in the delta *computation* of the reply (serializer assertions) is covered by correspondence, not yet by a theorem; live/dead invariants are C12's theorems.",
+        "suites": ["wire", "apply", "udp"],
+        "level_text": "C09_decoded_delta_wf / C09_decoded_msg_wf (every decodable delta is well formed: distinct members, strictly increasing versions, nothing above the announced max), C09_apply_decoded_never_panics, C09_decoded_frontier_monotone, for all byte strings and compressor behaviours; C09_process_message_never_panics: on a well-formed cluster state (WFCluster, shown to hold initially and to be preserved by local writes, GC, the liveness pass and every processed message) the whole handler including the computation of the reply (budget, block stream, builder unwraps, mtu assertion) returns normally for any well-formed message, digest, compressor and shuffle order. Decoder model written with checked accesses only; tied to the real decoder, process_message and the UDP receive path by random / bit-flipped / truncated / padded / structure-aware datagrams (decode result, error vs value, panics).",
+        "level_note": _COMMON_NOTE + "Hypothesis SynBudgetOk of the handler theorem: the node's own digest leaves at least 100 bytes of a datagram (the property's proviso; beyond about 1200 known members the code's budget subtraction underflows, a scale limit recorded in DESIGN.md as O-5). Live/dead invariants are C12's theorems. The external catch-up keeps WFCluster only if the application supplies pairwise distinct versions.",
         "assumptions": ["the members known to the node fit a digest in one datagram (property's proviso)"],
-        "partial": "reply-computation assertions covered by correspondence only",
     },
     "C10": {
         "suites": ["fd", "cluster"],
@@ -123,11 +122,11 @@ PROPS = {
         "assumptions": [],
     },
     "C19": {
-        "suites": ["server"],
-        "level_text": "Decision logic of the loop as a state machine (Model/Server.lean): C19_send_errors_harmless (any mix of failed sends = all sends ok), C19_heartbeat_progress, C19_loop_survives, C19_fatal_recv_terminates_err, C19_shutdown_terminates_ok, C19_terminated_is_final, C19_panic_reported. Tied to server.rs by running the real spawn_chitchat loop on a scripted Transport under the paused clock (scripts of up to 12 events over send ok/err/panic, SYN same/other cluster, ACK, junk, fatal recv, gossip command, shutdown, user lock) and comparing termination status, local heartbeat and number of send attempts.",
-        "level_note": _COMMON_NOTE + "PARTIAL by nature: tokio select! fairness, the real mutex, real UDP/OS errors are outside the model; events are placed at distinct instants of the paused clock so that select! never has two ready branches. The loopback-UDP garbage/oversize part of the property is not exercised.",
-        "assumptions": ["tokio runtime semantics", "events at distinct instants"],
-        "partial": "runtime behaviour (select!, mutex, UDP) not modelled; loopback UDP not exercised",
+        "suites": ["server", "udp"],
+        "level_text": "Decision logic of the loop as a state machine (Model/Server.lean): C19_send_errors_harmless (any mix of failed sends = all sends ok), C19_heartbeat_progress, C19_loop_survives, C19_fatal_recv_terminates_err, C19_shutdown_terminates_ok, C19_terminated_is_final, C19_panic_reported; the UDP socket wrapper (Model/Udp.lean): C19_udp_send_history_free, C19_udp_send_exact, C19_udp_send_after_failure, C19_udp_recv_skip. Tied to server.rs by running the real spawn_chitchat loop on a scripted Transport under the paused clock (scripts of up to 12 events over send ok/err/panic, SYN same/other cluster, ACK, junk, fatal recv, gossip command, shutdown, user lock) and comparing termination status, local heartbeat and number of send attempts; tied to transport/udp.rs by driving the real UdpSocket on loopback (small, oversized and unreachable sends in any order observed on the wire by a raw socket; valid, truncated, padded, bit-flipped and random datagrams delivered to recv) and comparing with the model datagram by datagram.",
+        "level_note": _COMMON_NOTE + "PARTIAL by nature: tokio select! fairness, the real mutex and the operating system's UDP stack are outside the model (the OS is the parameter `osAccepts`: it takes a datagram iff the destination is reachable and the payload is at most 65 507 bytes); events are placed at distinct instants of the paused clock so that select! never has two ready branches.",
+        "assumptions": ["tokio runtime semantics", "events at distinct instants", "loopback UDP delivers in order and accepts payloads up to 65507 bytes"],
+        "partial": "runtime behaviour (select!, mutex, OS UDP stack) not modelled",
     },
     "C20": {
         "suites": ["apply", "pair"],
